@@ -83,3 +83,20 @@ package s2
 //@   requires len(l.index.shapes) == 0 || len(l.vertices) <= 32
 //@   ensures [bound-reject] !l.index.IsFresh() && !l.bound.ContainsPoint(p) ==> !result
 //@   ensures [brute-force] l.index.IsFresh() || l.bound.ContainsPoint(p) ==> result == (l.originInside != vcLoopParity(l, OriginPoint(), p, len(l.vertices)))
+
+// ---------------------------------------------------------------- the reference bit the index builder starts from
+
+// parity of the loops that contain the origin
+//@ spec func vcOriginParity(p *Polygon, k int) bool = k > 0 && (vcOriginParity(p, k-1) != p.loops[k-1].originInside)
+//@   decreases k
+
+// a polygon contains OriginPoint iff an odd number of its loops do; every containsCenter bit of its index is derived from this
+//@ func (p *Polygon) ReferencePoint() ReferencePoint
+//@   requires p != nil && (forall k int :: 0 <= k && k < len(p.loops) ==> p.loops[k] != nil)
+//@   ensures [parity] result.Contained == vcOriginParity(p, len(p.loops))
+//@   ensures [at-origin] vcSame(result.Point, OriginPoint())
+//@   loop 1 (rangeindex int, containsOrigin bool): invariant -1 <= rangeindex && rangeindex < len(p.loops) && containsOrigin == vcOriginParity(p, rangeindex+1)
+
+//@ func (l *Loop) ReferencePoint() ReferencePoint
+//@   requires l != nil
+//@   ensures [origin-bit] result.Contained == l.originInside && vcSame(result.Point, OriginPoint())
